@@ -14,7 +14,8 @@
 // go/printer itself is known not to be a perfect fixpoint / AST-preserving printer (it drops empty statements and
 // redundant parentheses, normalises number literals, moves some comments).  Such behaviour is separated, not hidden:
 // a failing case is classified "inherited" (counted, not a violation) iff go/format.Source shows the same failure on
-// the same input (same AST as gnofmt's output / same comment set / go/format not a fixpoint either).
+// the same input (same AST as gnofmt's output / same comment set / go/format not a fixpoint either); for AST and comment
+// changes the second upstream stage gnofmt delegates to, x/tools imports.Process(FormatOnly), is a reference as well.
 //
 // Enumerated: every token sequence <= k over four small alphabets (statements, declarations, expressions with comment
 // and blank-line tokens; import sections x 8 file bodies against a mock resolver with colliding package names), kept
@@ -42,6 +43,7 @@ import (
 	"time"
 
 	"github.com/gnolang/gno/gnovm/pkg/gnofmt"
+	"golang.org/x/tools/imports"
 	"verif/engine/vk"
 )
 
@@ -521,6 +523,9 @@ func (t *tally) flush() {
 
 var nFormatted atomic.Int64
 
+// exactly the options gnofmt passes (processor.go formatNode)
+var upstreamOpts = &imports.Options{TabWidth: 8, Comments: true, TabIndent: true, FormatOnly: true}
+
 // Violations are aggregated per class (failure kind + entry point + root-cause signature of the input); each class is
 // reported once, with its minimal failing input and the number of failing inputs.
 type classRec struct {
@@ -745,6 +750,18 @@ func checkOne(e *env, entry, label string, src []byte, fx *ast.File, t *tally) {
 				}
 				ngs = append(ngs, normalize(fg))
 				cur, e1 = format.Source(cur)
+			}
+			// the other upstream stage gnofmt delegates to: x/tools imports.Process in format-only mode (it re-parses,
+			// merges/sorts import declarations and prints; e.g. it turns a comment inside an import block into a
+			// reformatted doc comment)
+			cur2, e3 := imports.Process(fname, src, upstreamOpts)
+			for i := 0; i < 2 && e3 == nil; i++ {
+				fg, e2 := parseSrc(cur2)
+				if e2 != nil {
+					break
+				}
+				ngs = append(ngs, normalize(fg))
+				cur2, e3 = imports.Process(fname, cur2, upstreamOpts)
 			}
 		}
 		return ngs
@@ -1116,7 +1133,7 @@ func main() {
 	if r.Thorough() {
 		depth = map[string]int{"stmt": 6, "decl": 6, "expr": 6, "imp": 6}
 	} else {
-		depth = map[string]int{"stmt": 4, "decl": 4, "expr": 4, "imp": 5}
+		depth = map[string]int{"stmt": 5, "decl": 5, "expr": 5, "imp": 5}
 	}
 	for n := 0; n <= 6; n++ {
 		for _, fam := range families {
@@ -1168,7 +1185,7 @@ func main() {
 	}
 	var sel []corpusFile
 	for i, cf := range corpus {
-		if r.Quick() && (i%32 != 0 || len(cf.src) > 2<<10) {
+		if r.Quick() && (i%16 != 0 || len(cf.src) > 2<<10) {
 			continue
 		}
 		if r.Thorough() && (i%2 != 0 || len(cf.src) > 6<<10) {
